@@ -111,6 +111,18 @@ fn replay(path: &str, announce: bool) -> i32 {
     let v = read_json(path);
     let prop = v["property"].as_str().unwrap_or("").to_string();
     let check = find_check(&prop);
+    if v["class"] == json!("crash") {
+        // re-run the worker's slice in this process: the crash kills it again (that is the reproduction)
+        let c = &v["crash"];
+        let tier = Tier::parse(c["tier"].as_str().unwrap_or("quick")).unwrap_or(Tier::Quick);
+        println!("replay of {path}: re-running worker {} of {} (seed {}); a crash of this process reproduces the violation", c["worker"], c["workers"], c["seed"]);
+        println!("VIOLATION property={prop} replay={path}");
+        use std::io::Write;
+        std::io::stdout().flush().ok();
+        harness::worker(&check, tier, c["seed"].as_u64().unwrap_or(0), c["worker"].as_u64().unwrap_or(0), c["workers"].as_u64().unwrap_or(16), &[]);
+        println!("replay of {path}: the slice completed without a crash this time");
+        return 0;
+    }
     let f = failure_from_json(&v);
     let Some(scn) = check.scenario(&f.scenario) else {
         eprintln!("l2: unknown scenario {}", f.scenario);
@@ -237,6 +249,7 @@ fn coordinator(id: &str, tier: Tier, seed: u64) -> i32 {
         samples: vec![],
     };
     let mut harness_error = false;
+    let mut crashes: Vec<(u64, i32, String)> = vec![];
     for (w, mut c) in children.into_iter().enumerate() {
         let mut out = String::new();
         let mut err = String::new();
@@ -266,14 +279,34 @@ fn coordinator(id: &str, tier: Tier, seed: u64) -> i32 {
                 }
             }
             _ => {
-                harness_error = true;
+                use std::os::unix::process::ExitStatusExt;
+                // A worker killed by a signal (abort after a panic inside a destructor, segfault, ...) while
+                // it runs the real code is a finding about that code, not a harness error: it is reported as
+                // a violation whose replay file re-runs the worker's slice of cases.
+                if let Some(sig) = status.signal() {
+                    crashes.push((w as u64, sig, tail(&err, 1500).to_string()));
+                } else {
+                    harness_error = true;
+                }
                 eprintln!("l2: worker {w} failed (status {status:?})\n--- stdout\n{out}\n--- stderr\n{}", tail(&err, 4000));
             }
         }
     }
     if harness_error {
-        eprintln!("l2: HARNESS ERROR (a worker crashed); no verdict");
+        eprintln!("l2: HARNESS ERROR (a worker failed without a signal); no verdict");
         return 2;
+    }
+    if let Some((w, sig, err)) = crashes.first() {
+        let file = json!({
+            "property": id, "level": "L2", "scenario": "worker-slice", "class": "crash",
+            "message": format!("the process running the cases of worker {w} was killed by signal {sig}: {}", err.lines().rev().take(6).collect::<Vec<_>>().into_iter().rev().collect::<Vec<_>>().join(" | ")),
+            "crash": {"tier": tier.as_str(), "seed": seed, "worker": w, "workers": n_workers},
+            "case": Value::Null, "case_index": 0, "sched_seed": 0, "schedule": [],
+        });
+        let path = write_replay(&root, &format!("{id}-L2-{seed}.json"), &file);
+        println!("l2: violation class=crash scenario=worker-slice — {}", file["message"].as_str().unwrap_or(""));
+        println!("VIOLATION property={id} replay={}", path.display());
+        return 1;
     }
 
     // known findings
